@@ -1,8 +1,20 @@
 //! C18 (HTTP dates and SHA-1 halves): `humphrey::http::date::DateTime::{from, to_string}` on every
 //! day of 1970..=9999 and `humphrey_ws::verif::SHA1Hash::hash` on every padding/block-boundary length.
+use crate::c18a::{desc_bytes, desc_parse, desc_str, sweep_lengths, Seg, SWEEP_P};
 use crate::common::*;
+use humphrey::http::address::Address;
 use humphrey::http::date::DateTime;
+use humphrey::http::headers::Headers;
+use humphrey::http::method::Method;
+use humphrey::http::Request;
+use humphrey::stream::{MockIo, Stream};
+use humphrey_ws::stream::WebsocketStream;
 use humphrey_ws::verif::SHA1Hash;
+use humphrey_ws::websocket_handler;
+use std::io::{Error, Read, Write};
+use std::net::SocketAddr;
+use std::sync::{Arc, Mutex};
+use std::time::Duration;
 
 /// Last second of 9999-12-31.
 const T_MAX: i64 = 253402300799;
@@ -26,11 +38,80 @@ fn sha1_impl(m: &[u8]) -> String {
     }
 }
 
+/// A socket that has nothing to read and records what is written to it.
+struct Sink(Arc<Mutex<Vec<u8>>>);
+
+impl Read for Sink {
+    fn read(&mut self, _buf: &mut [u8]) -> std::io::Result<usize> {
+        Ok(0)
+    }
+}
+
+impl Write for Sink {
+    fn write(&mut self, buf: &[u8]) -> std::io::Result<usize> {
+        self.0.lock().unwrap().extend_from_slice(buf);
+        Ok(buf.len())
+    }
+    fn flush(&mut self) -> std::io::Result<()> {
+        Ok(())
+    }
+}
+
+impl MockIo for Sink {
+    fn peer_addr(&self) -> Result<SocketAddr, Error> {
+        Ok("127.0.0.1:40000".parse().unwrap())
+    }
+    fn shutdown(&self) -> std::io::Result<()> {
+        Ok(())
+    }
+    fn set_timeout(&self, _timeout: Option<Duration>) -> std::io::Result<()> {
+        Ok(())
+    }
+    fn set_nonblocking(&self, _nonblocking: bool) -> std::io::Result<()> {
+        Ok(())
+    }
+}
+
+/// The public path to SHA-1 + Base64: the closure returned by `websocket_handler` on an upgrade request whose
+/// `Sec-WebSocket-Key` is `key`. Output: hex of everything written to the socket (the 101 response with the
+/// accept value) or `PANIC`.
+fn wsacc_impl(key: &str) -> String {
+    let written = Arc::new(Mutex::new(Vec::new()));
+    let sink = Sink(written.clone());
+    let key = key.to_string();
+    let r = guarded(move || {
+        let mut headers = Headers::new();
+        headers.add("Host", "localhost");
+        headers.add("Upgrade", "websocket");
+        headers.add("Connection", "Upgrade");
+        headers.add("Sec-WebSocket-Key", key);
+        headers.add("Sec-WebSocket-Version", "13");
+        let request = Request {
+            method: Method::Get,
+            uri: "/ws".into(),
+            query: String::new(),
+            version: "HTTP/1.1".into(),
+            headers,
+            content: None,
+            address: Address::new("127.0.0.1:40000").unwrap(),
+        };
+        let handler = websocket_handler(|_stream: WebsocketStream, _state: Arc<()>| {});
+        handler(request, Stream::Mock(Box::new(sink)), Arc::new(()));
+    });
+    if r.is_err() {
+        return "PANIC".into();
+    }
+    let w = written.lock().unwrap();
+    hex(&w)
+}
+
 /// Re-execute one case (`fn`, args…) on the implementation.
 pub fn exec(f: &[String]) -> Option<String> {
     match (f[0].as_str(), f.len()) {
         ("date", 2) => Some(date_impl(f[1].parse::<i64>().ok()?)),
         ("sha1", 2) => Some(sha1_impl(&unhex(&f[1]))),
+        ("sha1g", 2) => Some(sha1_impl(&desc_bytes(&desc_parse(&f[1])?))),
+        ("wsacc", 2) => Some(wsacc_impl(std::str::from_utf8(&desc_bytes(&desc_parse(&f[1])?)).ok()?)),
         _ => None,
     }
 }
@@ -102,8 +183,98 @@ fn run_sha1(out: &mut Out, m: &[u8], kind: &str) {
     out.case(&["sha1", &hex(m)], &r, true);
 }
 
+fn sha1_counts(out: &mut Out, len: usize, kind: &str) {
+    out.count(&format!("sha1:{}", kind));
+    let tail = len % 64;
+    out.count(if tail < 55 { "sha1:len%64<55(pad-in-block)" } else if tail == 55 { "sha1:len%64=55(exact-fit)" } else { "sha1:len%64>55(extra-block)" });
+    out.count(&format!("sha1:blocks={}", match (len + 9 + 63) / 64 { n @ 1..=4 => n.to_string(), 5..=18 => "5-18".into(), _ => ">18".into() }));
+}
+
+fn near_p(n: usize) -> String {
+    if n <= 400 {
+        "0..400".into()
+    } else {
+        format!("near-{}", SWEEP_P.iter().min_by_key(|p| (**p as i64 - n as i64).abs()).unwrap())
+    }
+}
+
+/// SHA-1 on a described message (LENGTH sweeps).
+fn run_sha1g(out: &mut Out, segs: &[Seg], kind: &str) {
+    let m = desc_bytes(segs);
+    let r = sha1_impl(&m);
+    sha1_counts(out, m.len(), kind);
+    out.count(&format!("sha1:len:{}", near_p(m.len())));
+    out.case(&["sha1g", &desc_str(segs)], &r, true);
+}
+
+/// The handshake on a described key (hashes key + 36-byte GUID).
+fn run_wsacc(out: &mut Out, segs: &[Seg]) {
+    let key = desc_bytes(segs);
+    let r = wsacc_impl(std::str::from_utf8(&key).expect("keys are ASCII"));
+    out.count("fn=wsacc");
+    out.count(&format!("wsacc:hashed-len:{}", near_p(key.len() + 36)));
+    out.count(if r == "PANIC" { "wsacc:PANIC" } else if r.is_empty() { "wsacc:nothing-written" } else { "wsacc:response" });
+    sha1_counts(out, key.len() + 36, "through-handshake");
+    out.case(&["wsacc", &desc_str(segs)], &r, true);
+}
+
+/// LENGTH sweeps of SHA-1: directly and through the WebSocket handshake (message = key + GUID), every length
+/// 0..=300 and P-72..=P+72 around each P of `SWEEP_P`.
+fn sha1_length_sweeps(out: &mut Out, thorough: bool, seed: u64) {
+    let lens = sweep_lengths(|_| 72);
+    let sd = |l: usize, k: u64| seed.wrapping_mul(1000003).wrapping_add(l as u64 * 16 + k) % 1_000_000_007;
+    for &l in &lens {
+        // quick tier at 1 MiB: the direct digests for all of P-72..=P+72, the handshake for P-8..=P+8
+        let direct_only = !thorough && l > 100_000 && (l as i64 - (1i64 << 20)).abs() > 8;
+        // direct: lengths 0..=1100 are covered in full above; here the neighbourhoods of the larger P
+        if l > 1100 {
+            let contents = [Seg::Rand(l, sd(l, 0)), Seg::Pat(l, vec![0]), Seg::Pat(l, vec![0xff]), Seg::Pat(l, vec![0x80]), Seg::Count(l, 0)];
+            let n = if thorough { contents.len() } else if l > 100_000 { 1 } else { 2 };
+            for k in 0..n {
+                let c = if k == 0 || thorough { contents[k].clone() } else { contents[1 + l % 4].clone() };
+                run_sha1g(out, &[c], "length-sweep");
+            }
+        }
+        // through the handshake: the key is 36 bytes shorter than the hashed message; random Base64 symbols, and (for
+        // the short ones) every key length itself up to 300
+        if l >= 36 && !direct_only {
+            run_wsacc(out, &[Seg::B64(l - 36, sd(l, 1))]);
+            if thorough && l > 300 {
+                run_wsacc(out, &[Seg::Pat(l - 36, b"AQIDBAUGBwgJCgsMDQ4PEC==".to_vec())]);
+            }
+        }
+    }
+    for l in 301..=336usize {
+        run_wsacc(out, &[Seg::B64(l - 36, sd(l, 1))]);
+    }
+    run_wsacc(out, &[Seg::Lit(b"dGhlIHNhbXBsZSBub25jZQ==".to_vec())]);
+    out.extra.insert(
+        "sha1_length_sweeps".into(),
+        format!("hashed lengths 0..=336 and P-72..=P+72 for P in {:?}: directly (sha1g, above 1100) and through websocket_handler (wsacc, key = length - 36{})",
+            SWEEP_P, if thorough { "" } else { "; at 1 MiB only P-8..=P+8 in the quick tier" }),
+    );
+}
+
 pub fn gen(out: &mut Out, thorough: bool, seed: u64) {
     let mut rng = Rng::new(seed);
+    sha1_length_sweeps(out, thorough, seed);
+    // ---- dates: timestamps around every power of two and of ten (the widths of the intermediate integers and of the
+    // decimal fields), 72 either side; inside 1970..9999 they are judged, outside only compared with the model
+    for k in 0..=62u32 {
+        for d in -72i64..=72 {
+            run_date(out, (1i64 << k) + d, "around-power-of-two");
+            if k >= 8 {
+                run_date(out, -(1i64 << k) + d, "around-power-of-two");
+            }
+        }
+    }
+    let mut p10 = 1i64;
+    for _ in 0..=18 {
+        for d in -72i64..=72 {
+            run_date(out, p10 + d, "around-power-of-ten");
+        }
+        p10 = p10.saturating_mul(10);
+    }
 
     // ---- SHA-1: every length 0..=1100 (all padding / block-boundary cases), several contents each
     for len in 0..=1100usize {
